@@ -36,6 +36,8 @@ def run(v, tier, replay):
         e = events[int(m.group(1)) - 1]
         if e["ev"] == "write":
             sig = "Write(%d bytes) by %s returned %d, sent %d packet(s) carrying %d bytes, peer read %d bytes (intact=%s)" % (e["n"], e["who"], e["ret"], e["pkts"], e["sentbytes"], e["read"], e["intact"])
+        elif e["ev"] == "longrun":
+            sig = "long session: %d sent, %d delivered, %d of %d replayed datagrams delivered again, peer address moved %d times" % (e["sent"], e["delivered"], e["redelivered"], e["replays"], e["moved"])
         else:
             sig = "concurrent writers: %s" % json.dumps(e, sort_keys=True)
         v.violation(sig, "faithful simulated network, real client/server pair; judged by Trace_HopTransport against the chunking rule of the specification", e)
